@@ -69,6 +69,9 @@ thread_local! {
     static CURRENT: RefCell<Option<Arc<Session>>> = const { RefCell::new(None) };
 }
 
+/// set once any session was ever created, so that unhooked processes skip all bookkeeping
+static CURRENT_ANY: std::sync::atomic::AtomicBool = std::sync::atomic::AtomicBool::new(false);
+
 struct Uninstall(Option<Arc<Session>>);
 
 impl Drop for Uninstall {
@@ -86,6 +89,7 @@ pub fn with_hooks<R>(hooks: Arc<dyn Hooks>, func: impl FnOnce() -> R) -> R {
         chance_slots: AtomicUsize::new(0),
         player_slots: AtomicUsize::new(0),
     });
+    CURRENT_ANY.store(true, Ordering::SeqCst);
     let prev = CURRENT.with(|cur| cur.borrow_mut().replace(session));
     let _guard = Uninstall(prev);
     func()
@@ -160,6 +164,32 @@ pub(crate) fn site_rng(handle: &Option<SiteHandle>, fallback: ThreadRng) -> Site
     {
         Some(seed) => SiteRng::Seeded(SplitMix::new(seed)),
         None => SiteRng::Thread(fallback),
+    }
+}
+
+thread_local! {
+    static NOTED: RefCell<Vec<f64>> = const { RefCell::new(Vec::new()) };
+}
+
+/// Remember the weights the categorical sampler was constructed with on this thread
+pub(crate) fn note_weights(weights: &[f64]) {
+    if CURRENT_ANY.load(Ordering::Relaxed) {
+        NOTED.with(|noted| {
+            let mut noted = noted.borrow_mut();
+            noted.clear();
+            noted.extend_from_slice(weights);
+        });
+    }
+}
+
+/// Report a draw made from the weights last noted on this thread
+pub(crate) fn draw_noted(handle: &Option<SiteHandle>, produced: usize) -> usize {
+    match handle {
+        Some(_) => {
+            let weights = NOTED.with(|noted| noted.borrow().clone());
+            draw(handle, &weights, produced)
+        }
+        None => produced,
     }
 }
 
